@@ -216,6 +216,10 @@ def _run(ev, work, thorough):
     ev.exhaustive = True
     for h in hists[:2]:
         ev.sample([{k: v for k, v in r.items() if k != "steps"} for r in h])
+    # ---- traces of the repository's own test-suite against the per-call contract clauses (harness/checks/suite.py) ----
+    from . import suite as SUITE
+    nrec = SUITE.stage(ev, verd, work, 'C19', thorough)
+    ev.extra['suite_records_total'] = nrec
     n = verd.report(ev)
     return 1 if n else 0
 
